@@ -1202,6 +1202,11 @@ func rulePAssert(c *engine.Context) *report.Rule {
 		for _, b := range fn.Blocks {
 			for _, ins := range b.Instrs {
 				ta, ok := ins.(*ssa.TypeAssert)
+				// an assertion of an interface value to its own interface type is the nil check go/ssa
+				// writes for a method value (`f := x.m`): it inspects no dynamic type
+				if ok && !ta.CommaOk && types.Identical(ta.AssertedType, ta.X.Type()) {
+					continue
+				}
 				if !ok || ta.CommaOk {
 					continue
 				}
